@@ -155,18 +155,3 @@ pub fn c09_aliased_list_equal_iff_elements_equal() {
     forget(a);
     forget(b);
 }
-
-/// the same for maps: a map is equal to an alias of itself exactly when its value is equal to itself
-#[cfg_attr(kani, kani::proof)]
-#[cfg_attr(kani, kani::unwind(12))]
-#[cfg_attr(kani, kani::stub(std::collections::hash_map::RandomState::new, crate::conv::fixed_random_state))]
-pub fn c09_aliased_map_equal_iff_values_equal() {
-    let f: f64 = any();
-    let mut m = std::collections::HashMap::new();
-    m.insert(cel_interpreter::objects::Key::Int(1), Value::Float(f));
-    let a = Value::Map(cel_interpreter::objects::Map { map: std::sync::Arc::new(m) });
-    let b = a.clone();
-    assert!((a == b) == (f == f));
-    forget(a);
-    forget(b);
-}
